@@ -918,7 +918,7 @@ func c15Record(env *Env) {
 	idxMaxLen := env.optInt("idxmaxlen", 60)
 
 	// ---- searches -----------------------------------------------------------------------
-	families := []string{"family", "near", "family", "self", "iupac", "family2", "near", "unrelated"}
+	families := []string{"family", "near", "one-apart", "family", "self", "iupac", "family2", "near", "one-apart", "unrelated"}
 	for e := 0; e < nClosest; e++ {
 		fam := families[e%len(families)]
 		n := 50 + g.rng.Intn(maxRefs-50+1)
@@ -942,6 +942,18 @@ func c15Record(env *Env) {
 				q[g.rng.Intn(len(q))] = c15Iupac[g.rng.Intn(len(c15Iupac))]
 			}
 			alpha = "iupac"
+		case "one-apart":
+			// three references at one difference from the query: a substitution of the last base (it shares the most
+			// 4-mers: compared first), an insertion and a deletion in the middle (compared by the one-difference test
+			// once the best distance is 1); the insertion gives the best identity
+			q = g.seq(minLen + g.rng.Intn(maxLen-minLen+1))
+			m := len(q) / 2
+			sub := append([]byte(nil), q...)
+			sub[len(sub)-1] = g.other(sub[len(sub)-1])
+			ins := append(append(append([]byte(nil), q[:m]...), g.other(q[m])), q[m:]...)
+			del := append(append([]byte(nil), q[:m]...), q[m+1:]...)
+			refs = append(refs, sub, ins, del)
+			g.shuffle(refs, nil)
 		case "family", "family2":
 			// the counter-example class of the model on long sequences: references tied at distance d,
 			// one longer than the query that keeps all its 4-mers, others that share few of them
